@@ -267,7 +267,7 @@ def run_case(case, scratch):
             if got["init_error"] is not None:
                 discs.append(Disc(f"faulty-config:{kind}:initialize-error",
                                   f"{fault} {text!r}: initialize answered an error: {got['init_error'][:200]}"))
-            elif kind != "wrongtype":
+            else:
                 if len(msgs) <= len(msgs2):
                     discs.append(Disc(f"faulty-config:{fault}:no-message", f"{fault} {text!r}: no user-visible message (messages: {msgs!r})"))
                 diffs = diff_battery(got, b2)
